@@ -183,7 +183,7 @@ func TestVerif_C18Watch(t *testing.T) {
 			rec(append(prefix[:len(prefix):len(prefix)], l), d-1)
 		}
 	}
-	for d := 1; d <= verifh.Scale(4, 6); d++ {
+	for d := 1; d <= verifh.Scale(4, 5); d++ {
 		rec(nil, d)
 	}
 	// overlapping writes with clock advances between every two steps: a failing write around a good one, and the
